@@ -8,7 +8,7 @@ the text after the *last* newline, and no partial string operation can raise on 
 from __future__ import annotations
 
 import ast
-from typing import List, Optional, Set, Tuple
+from typing import Dict, List, Optional, Set, Tuple
 
 from ..model import Repo, FuncInfo, AnalysisError, norm, parent, ancestors, enclosing_stmt, const_str
 from ..report import Ctx, RuleResult
@@ -154,6 +154,28 @@ def run_pairing(ctx: Ctx) -> RuleResult:
             if not cond_ok:
                 fail(hnl, defs[0], 'for a newline token without a newline (a comment ending the input) the whole token is measured as '
                                    'indentation: a spurious INDENT / DedentError where CPython produces neither', 'indent-text-no-newline')
+        # ... and a last line that holds more than indentation (a comment ending the input: the newline terminal
+        # of python.lark is ( /\\r?\\n[\\t ]*/ | COMMENT )+ ) is not measured: counting characters anywhere in it would
+        # add the blanks inside the comment to the width
+        counted = sorted({const_str(c.args[0]) for c in ast.walk(width_stmt.value) if isinstance(c, ast.Call)
+                          and isinstance(c.func, ast.Attribute) and c.func.attr == 'count' and c.args and const_str(c.args[0])})
+        guard_ok = False
+        for st in hnl.node.body:
+            if st.lineno >= width_stmt.lineno or not isinstance(st, ast.If) or st.orelse:
+                continue
+            t = st.test
+            if isinstance(t, ast.Compare) and len(t.ops) == 1 and isinstance(t.ops[0], ast.NotEq) and const_str(t.comparators[0]) == '':
+                t = t.left
+            if isinstance(t, ast.Call) and isinstance(t.func, ast.Attribute) and t.func.attr in ('strip', 'lstrip') \
+                    and norm(t.func.value) == text_var and len(t.args) == 1 and const_str(t.args[0]) is not None \
+                    and sorted(set(const_str(t.args[0]))) == counted and len(st.body) >= 1 and isinstance(st.body[-1], ast.Return) \
+                    and st.body[-1].value is None and not any(isinstance(x, (ast.Yield, ast.YieldFrom)) for b_ in st.body for x in ast.walk(b_)):
+                guard_ok = True
+        res.ob(site_h, 'only text made of the counted characters %r is measured (a last line with other content is skipped)' % counted, guard_ok)
+        if not guard_ok:
+            fail(hnl, width_stmt, 'the characters %r are counted anywhere in the text after the last newline: a comment on the last line '
+                                  '(part of the newline token when it ends the input) adds its blanks to the indentation -- a spurious '
+                                  'INDENT / DEDENT / DedentError where CPython produces none' % counted, 'indent-text-not-only-indentation')
         res.ob(site_h, 'the counted text is what follows the LAST newline of the newline token', ok)
         if not ok:
             fail(hnl, defs[0] if defs else hnl.node, 'indentation is not taken from the text after the last newline of the token',
@@ -371,3 +393,180 @@ def _contains_in_test(test: ast.AST, sep: Optional[str], recv: str) -> bool:
                 and norm(c.left) == sep and norm(c.comparators[0]) == recv:
             return True
     return False
+
+
+# ------------------------------------------------------------------------------------------------
+# R-INDENT-GRAMMAR: the bundled Python grammar and PythonIndenter agree on what a newline token is.
+import re as _re
+
+_TERM_DEF = _re.compile(r'^(?P<name>[_A-Z][_A-Z0-9]*)(?:\.\d+)?\s*:(?P<body>.*)$')
+
+
+def _grammar_terminals(text: str) -> Dict[str, Tuple[int, str]]:
+    """name -> (line, definition text) of the terminal definitions of a .lark file (continuation lines joined)."""
+    out: Dict[str, Tuple[int, str]] = {}
+    cur = None
+    for i, raw in enumerate(text.splitlines(), 1):
+        line = raw.split('//')[0] if not _re.search(r'/[^/]*//', raw) else raw    # keep lines whose // may sit in a regexp
+        m = _TERM_DEF.match(line)
+        if m:
+            cur = m.group('name')
+            out[cur] = (i, m.group('body').strip())
+        elif cur and line[:1] in (' ', '\t') and line.strip().startswith('|'):
+            out[cur] = (out[cur][0], out[cur][1] + ' ' + line.strip())
+        elif line.strip():
+            cur = None
+    return out
+
+
+def _regex_literals(defn: str) -> List[Tuple[str, str]]:
+    """(pattern, flags) of the /.../flags literals of a terminal definition."""
+    out = []
+    i = 0
+    while i < len(defn):
+        ch = defn[i]
+        if ch == '"':
+            j = i + 1
+            while j < len(defn) and defn[j] != '"':
+                j += 2 if defn[j] == '\\' else 1
+            i = j + 1
+        elif ch == '/':
+            j = i + 1
+            while j < len(defn) and defn[j] != '/':
+                j += 2 if defn[j] == '\\' else 1
+            pat_ = defn[i + 1:j]
+            k = j + 1
+            while k < len(defn) and defn[k].isalpha():
+                k += 1
+            out.append((pat_, defn[j + 1:k]))
+            i = k
+        else:
+            i += 1
+    return out
+
+
+def _charset(item) -> Optional[Set[int]]:
+    """Character set of a one-character regex node (sre parse tree), None when not a plain set."""
+    import re._constants as C     # the regex parser of the standard library: a syntax tree, nothing is matched
+    op, av = item
+    if op is C.LITERAL:
+        return {av}
+    if op is C.IN:
+        s: Set[int] = set()
+        for o, a in av:
+            if o is C.LITERAL:
+                s.add(a)
+            elif o is C.RANGE:
+                s |= set(range(a[0], a[1] + 1))
+            elif o is C.CATEGORY and a is C.CATEGORY_SPACE:
+                s |= {9, 10, 11, 12, 13, 32}
+            else:
+                return None
+        return s
+    return None
+
+
+def _indent_tail(pattern: str) -> Tuple[bool, Optional[Set[int]]]:
+    """(has a newline, set of characters repeated after the last newline) for a regexp whose top level is a sequence."""
+    import re._parser as P
+    import re._constants as C
+    seq = list(P.parse(pattern))
+    last = None
+    for i, it in enumerate(seq):
+        cs = _charset(it)
+        if cs is not None and 10 in cs:
+            last = i
+        elif it[0] in (C.MAX_REPEAT, C.MIN_REPEAT):
+            inner = list(it[1][2])
+            if any((_charset(x) or set()) & {10} for x in inner):
+                last = i
+    if last is None:
+        return False, None
+    tail = seq[last + 1:]
+    if len(tail) == 1 and tail[0][0] is C.MAX_REPEAT and tail[0][1][0] == 0 and tail[0][1][1] == C.MAXREPEAT \
+            and len(tail[0][1][2]) == 1:
+        return True, _charset(list(tail[0][1][2])[0])
+    if not tail and seq[last][0] is C.MAX_REPEAT:
+        return True, None
+    return True, set() if not tail else None
+
+
+def run_grammar(ctx: Ctx) -> RuleResult:
+    repo = ctx.repo
+    res = RuleResult('R-INDENT-GRAMMAR', 'lark/grammars/python.lark and PythonIndenter agree: the newline terminal captures the '
+                                         'indentation characters the Indenter counts; INDENT/DEDENT are declared; bracket terminals exist')
+    k = repo.cls('lark.indenter:PythonIndenter')
+    base = repo.cls(IND)
+    hnl = base.methods.get('handle_NL')
+    if hnl is None:
+        raise AnalysisError('Indenter.handle_NL not found (anchor vanished)')
+    counted = sorted({const_str(c.args[0]) for c in hnl.body_nodes() if isinstance(c, ast.Call) and isinstance(c.func, ast.Attribute)
+                      and c.func.attr == 'count' and c.args and const_str(c.args[0])})
+    if not counted:
+        raise AnalysisError('no counted indentation characters found in Indenter.handle_NL')
+    rel = 'lark/grammars/python.lark'
+    text = repo.text(rel)
+    terms = _grammar_terminals(text)
+
+    def lit(name):
+        v = k.literal_attr(name)
+        if v is None:
+            raise AnalysisError('PythonIndenter.%s is not a literal (anchor vanished)' % name)
+        return v
+    nl = lit('NL_type')
+    site = '%s:%s' % (rel, terms[nl][0] if nl in terms else 1)
+    ok = nl in terms
+    res.ob(site, 'the newline terminal %s of PythonIndenter is defined by the grammar' % nl, ok)
+    if not ok:
+        res.finding('lark/grammars/python.lark', None, 'terminal %s (PythonIndenter.NL_type) is not defined in python.lark' % nl,
+                    construct='nl-terminal-missing', file=rel, line=terms.get(nl, (1, ''))[0])
+        return res
+    n_re = 0
+    for pattern, flags in _regex_literals(terms[nl][1]):
+        try:
+            has_nl, tail = _indent_tail(pattern)
+        except Exception as e:          # not a regexp the stdlib parser reads: report, do not guess
+            raise AnalysisError('cannot parse the regexp /%s/ of %s: %s' % (pattern, nl, e))
+        if not has_nl:
+            continue
+        n_re += 1
+        ok = tail is not None and {ord(c) for c in counted} <= tail
+        res.ob(site, 'after its last newline, /%s/ captures a run of a class containing every counted character %r' % (pattern, counted), ok)
+        if not ok:
+            res.finding('lark/grammars/python.lark', None,
+                        'the newline terminal %s = /%s/ does not capture the indentation that Indenter.handle_NL measures (a run of %r after '
+                        'the last newline; found %s): indentation made of the missing characters is eaten by %%ignore and the line is seen '
+                        'at a smaller column -- INDENT/DEDENT differ from CPython' % (
+                            nl, pattern, counted, sorted(chr(c) for c in tail) if tail is not None else 'no such run'),
+                        construct='nl-terminal-indent:' + pattern, file=rel, line=terms.get(nl, (1, ''))[0])
+    res.require_instances(n_re, 1, 'regexps with a newline in the newline terminal')
+    declared = set()
+    for m in _re.finditer(r'^%declare\s+(.*)$', text, _re.M):
+        declared |= set(m.group(1).split('//')[0].split())
+    for attr in ('INDENT_type', 'DEDENT_type'):
+        v = lit(attr)
+        ok = v in declared or v in terms
+        res.ob(rel, '%s (%s) is declared by the grammar' % (v, attr), ok)
+        if not ok:
+            res.finding('lark/grammars/python.lark', None, '%s = %s is neither %%declare-d nor defined in python.lark' % (attr, v),
+                        construct='declare:' + attr, file=rel, line=terms.get(nl, (1, ''))[0])
+    # bracket terminals: the names load_grammar gives the anonymous tokens "(" "[" "{" ...
+    names = repo.modules['lark.load_grammar'].const('_TERMINAL_NAMES')
+    if not isinstance(names, dict):
+        raise AnalysisError('_TERMINAL_NAMES of load_grammar is not a literal dict (anchor vanished)')
+    by_name = {v: k_ for k_, v in names.items()}
+    op, cl = lit('OPEN_PAREN_types'), lit('CLOSE_PAREN_types')
+    ok = isinstance(op, (list, tuple)) and isinstance(cl, (list, tuple)) and len(op) == len(cl) and len(set(op) | set(cl)) == 2 * len(op)
+    res.ob('%s %s' % (k.module.loc(k.node), k.qual), 'as many distinct opening as closing bracket types', ok)
+    if not ok:
+        res.finding(k.qual, k.node, 'OPEN_PAREN_types / CLOSE_PAREN_types are not two disjoint lists of equal length', construct='paren-lists',
+                    module=k.module)
+    pairs = {'(': ')', '[': ']', '{': '}'}
+    for o_, c_ in zip(op or [], cl or []):
+        lo, lc = by_name.get(o_), by_name.get(c_)
+        ok = (lo in pairs and pairs[lo] == lc and ('"%s"' % lo) in text and ('"%s"' % lc) in text) or (o_ in terms and c_ in terms)
+        res.ob(rel, 'bracket types %s/%s name a matching pair of tokens the grammar uses' % (o_, c_), ok)
+        if not ok:
+            res.finding('lark/grammars/python.lark', None, 'bracket types %s/%s of PythonIndenter are not the names of a matching bracket pair '
+                        'used by python.lark (%r/%r)' % (o_, c_, lo, lc), construct='paren-pair:%s/%s' % (o_, c_), file=rel, line=terms.get(nl, (1, ''))[0])
+    return res
